@@ -64,6 +64,22 @@ INT_BITS = {"u8": 8, "u16": 16, "u32": 32, "u64": 64, "u128": 128, "usize": 64,
             "i8": 8, "i16": 16, "i32": 32, "i64": 64, "i128": 128, "isize": 64}
 
 
+class PyClosure:
+    """A closure value: its body path and the environment it was created in (upvars share HIR ids)."""
+
+    def __init__(self, path, env):
+        self.path = path
+        self.env = env
+
+    def __repr__(self):
+        return "<closure %s>" % self.path
+
+
+LIST_IDENTITY = ("core::slice::<impl [T]>::iter", "core::ops::deref::Deref::deref", "core::iter::traits::collect::IntoIterator::into_iter",
+                 "alloc::vec::Vec::<T, A>::as_slice", "core::iter::traits::iterator::Iterator::collect", "core::iter::traits::iterator::Iterator::copied",
+                 "core::iter::traits::iterator::Iterator::cloned", "alloc::slice::<impl [T]>::to_vec")
+
+
 class Interp:
     def __init__(self, facts, max_depth=6, extern=None):
         self.facts = facts
@@ -240,6 +256,8 @@ class Interp:
                 if e["name"] in v.fields:
                     return v.fields[e["name"]]
                 raise Unknown("field %s not modelled" % e["name"])
+            if isinstance(v, Opaque):
+                return Opaque(v.what + "." + e["name"])
             raise Unknown("field of %r" % (v,))
         if k == "Cast":
             v = self.ev(e["e"], env, depth)
@@ -269,7 +287,7 @@ class Interp:
         if k == "Call":
             return self.call(e, env, depth)
         if k == "Closure":
-            return Opaque("closure")
+            return PyClosure(e.get("path"), env)
         if k == "FnRef":
             return Opaque("fn " + (e.get("fn") or ""))
         if k == "Zst":
@@ -360,6 +378,59 @@ class Interp:
             raise Unknown("? on %r" % (v,))
         if gen == "core::ops::try_trait::FromResidual::from_residual":
             return self.ev(args[0], env, depth)
+        if gen in LIST_IDENTITY:
+            v = self.ev(args[0], env, depth)
+            if isinstance(v, (list, tuple)) or gen.endswith("Deref::deref"):
+                return v
+            raise Unknown("%s on %r" % (short(gen), v))
+        if gen.startswith("core::iter::traits::iterator::Iterator::") or gen.startswith("core::iter::traits::double_ended::DoubleEndedIterator::"):
+            m = gen.rsplit("::", 1)[1]
+            v = self.ev(args[0], env, depth)
+            if not isinstance(v, (list, tuple)):
+                raise Unknown("iterator method %s on %r" % (m, v))
+            v = list(v)
+            if m in ("any", "all", "filter", "map", "position", "find", "take_while", "skip_while"):
+                c = self.ev(args[1], env, depth)
+                if not isinstance(c, PyClosure):
+                    raise Unknown("iterator method %s without a closure" % m)
+                by_ref = m in ("filter", "find", "take_while", "skip_while")
+                rs = [self.call_closure(c, [x], depth) for x in v]
+                if m == "any":
+                    return any(self.truth(r) for r in rs)
+                if m == "all":
+                    return all(self.truth(r) for r in rs)
+                if m == "filter":
+                    return [x for x, r in zip(v, rs) if self.truth(r)]
+                if m == "map":
+                    return rs
+                if m == "position":
+                    for i, r in enumerate(rs):
+                        if self.truth(r):
+                            return Enum("Option", "Some", {"0": i})
+                    return Enum("Option", "None")
+                if m == "find":
+                    for x, r in zip(v, rs):
+                        if self.truth(r):
+                            return Enum("Option", "Some", {"0": x})
+                    return Enum("Option", "None")
+                raise Unknown("iterator method " + m)
+            if m == "count":
+                return len(v)
+            if m == "rev":
+                return v[::-1]
+            if m == "enumerate":
+                return [(i, x) for i, x in enumerate(v)]
+            if m in ("skip", "take"):
+                k2 = self.ev(args[1], env, depth)
+                if not isinstance(k2, int):
+                    raise Unknown("skip/take count")
+                return v[k2:] if m == "skip" else v[:k2]
+            raise Unknown("iterator method " + m)
+        if gen in ("core::slice::<impl [T]>::is_empty", "alloc::vec::Vec::<T, A>::is_empty"):
+            v = self.ev(args[0], env, depth)
+            if isinstance(v, (list, tuple)):
+                return len(v) == 0
+            raise Unknown("is_empty of %r" % (v,))
         if gen in ("core::slice::<impl [T]>::len", "alloc::vec::Vec::<T, A>::len"):
             v = self.ev(args[0], env, depth)
             if isinstance(v, (list, tuple)):
@@ -400,6 +471,22 @@ class Interp:
             raise Unknown("call to " + cal)
         vals = [self.ev(a, env, depth) for a in args]
         return self.apply(callee, vals, depth + 1)
+
+    def call_closure(self, c, vals, depth):
+        body = self.facts.bodies.get(c.path)
+        if body is None or depth >= self.max_depth:
+            raise Unknown("closure body " + str(c.path))
+        env = dict(c.env)
+        params = body.get("params", [])[1:]
+        if len(params) != len(vals):
+            raise Unknown("closure arity")
+        for p, v in zip(params, vals):
+            if "pat" in p and not self.match_pat(p["pat"], v, env):
+                raise Unknown("closure param pattern")
+        try:
+            return self.ev(body["thir"], env, depth + 1)
+        except ReturnEx as r:
+            return r.value
 
     def apply(self, body, vals, depth=0):
         env = {}
